@@ -41,7 +41,8 @@ pub fn hash64(s: &str) -> u64 {
 
 pub fn try_part<T: serde::de::DeserializeOwned + Serialize>(bytes: &[u8]) -> Result<String, String> {
     match sylvia::cw_std::from_json::<T>(bytes) {
-        Ok(v) => sylvia::cw_std::to_json_string(&v).map_err(|e| format!("re-encode: {e}")),
+        // decoding is the verdict; a value that cannot be encoded again is still an accepted document
+        Ok(v) => Ok(sylvia::cw_std::to_json_string(&v).unwrap_or_else(|e| format!("<<decoded, but cannot be encoded again: {e}>>"))),
         Err(e) => Err(e.to_string()),
     }
 }
